@@ -40,7 +40,7 @@ class C14(Check):
                    'liveness (machine inactive after the last stop / last requested state entered with its attributes) is '
                    'judged after 4 + (length of the longest generated cleanup chain) further cycles; generated cleanup '
                    'chains retry a bounded number of times']
-    PROBES = ('c14.module-world', 'c14.interrupt-while-active', 'c14.cleanup-chain', 'c14.restart-during-cleanup', 'c14.stop-during-cleanup',
+    PROBES = ('c14.module-world', 'c14.stop-during-stop-cleanup', 'c14.interrupt-while-active', 'c14.cleanup-chain', 'c14.restart-during-cleanup', 'c14.stop-during-cleanup',
               'c14.loop-limit', 'c14.error-in-state', 'c14.error-in-cleanup', 'c14.two-commands-before-cycle')
 
     def gen_case(self, rng, tier):
@@ -95,6 +95,13 @@ class C14(Check):
             for _ in range(rng.randrange(1, 7)):
                 ops.append({'kind': rng.choice(['change', 'change', 'stop', 'read']),
                             'v': round(rng.random() * 100, 2), 'dt': rng.choice([0, 0.05, 0.3, 1.5, 4.0])})
+            if rng.random() < 0.25:
+                # focus: a new target and another stop arrive while the stop cleanup of the first run takes several
+                # cycles: the most recent request is a stop
+                shape['plan'].update(stop_chain=rng.choice([3, 4, 6]), a_fails=False)
+                ops = [{'kind': 'change', 'v': 11.0, 'dt': 0}, {'kind': 'stop', 'v': 0, 'dt': rng.choice([0.05, 0.3, 1.5])},
+                       {'kind': 'change', 'v': 22.0, 'dt': rng.choice([0, 0.05])},
+                       {'kind': 'stop', 'v': 0, 'dt': rng.choice([0, 0.05])}] + ops[:rng.randrange(0, 2)]
         return {'shape': shape, 'ops': ops}
 
     def shrink_candidates(self, case):
@@ -182,6 +189,12 @@ class C14(Check):
             if plan.get('stop_decorated', True):
                 # else: a cleanup state without attached status (it does not change the status, as documented)
                 state_stopping = status_code(BUSY, 'braking')(state_stopping)
+
+            def stop_machine(self, *args, **kwds):
+                sm = self._state_machine
+                rec('stop-req', bool(sm.is_active), type(sm.cleanup_reason).__name__)
+                super().stop_machine(*args, **kwds)
+                rec('stop-done')
 
             def doPoll(self):
                 was = self._state_machine.is_active
@@ -287,6 +300,21 @@ class C14(Check):
                                      f'the stop cleanup of the run began, but later the run reached its goal: '
                                      f'{[x[2:4] for x in ev][-8:]}'))
                 return res
+        # the most recent request wins: a stop accepted by a running machine (also one which is in its stop cleanup
+        # already, with a new start waiting) is not followed by a complete run unless a new start was requested
+        sreq = [e for e in ev if e[2] == 'stop-req' and e[3]]
+        if sreq:
+            last = sreq[-1]
+            done = next((e for e in ev if e[2] == 'stop-done' and e[0] > last[0]), None)
+            if done is not None and not any(e[2] == 'start-req' and e[0] > last[0] for e in ev):
+                if last[4] == 'Stop':
+                    sim.counters['c14.stop-during-stop-cleanup'] = sim.counters.get('c14.stop-during-stop-cleanup', 0) + 1
+                begun = next((e for e in ev if e[2] == 'run-begin' and e[0] > done[0]), None)
+                if begun is not None and any(e[2] == 'finishing' and e[3] == 'reached' and e[0] > begun[0] for e in ev):
+                    res.append(Violation('C14.stop-ignored', 'run-after-last-stop',
+                                         f'the last request was a stop (machine active, cleanup reason {last[4]}), but '
+                                         f'afterwards a run began and reached its goal: {[x[2:5] for x in ev][-10:]}'))
+                    return res
         # final status
         if ctx['final_active']:
             res.append(Violation('C14.module-never-finished', 'active', f'machine still active at the end; status {ctx["final_status"]}'))
